@@ -2,6 +2,7 @@ package core
 
 import (
 	"bufio"
+	"encoding/binary"
 	"encoding/json"
 	"fmt"
 	"os"
@@ -207,39 +208,25 @@ func RunWorker(a WorkerArgs) int {
 }
 
 func writeBitmap(path string, b bitmap) error {
-	// sparse form: list of non-zero words
-	f, err := os.Create(path)
-	if err != nil {
-		return err
-	}
-	defer f.Close()
-	w := bufio.NewWriter(f)
+	buf := make([]byte, 8*len(b))
 	for i, x := range b {
-		if x != 0 {
-			fmt.Fprintf(w, "%x %x\n", i, x)
-		}
+		binary.LittleEndian.PutUint64(buf[8*i:], x)
 	}
-	return w.Flush()
+	return os.WriteFile(path, buf, 0o644)
 }
 
 func readBitmapInto(path string, b bitmap) error {
-	f, err := os.Open(path)
+	buf, err := os.ReadFile(path)
 	if err != nil {
 		return err
 	}
-	defer f.Close()
-	s := bufio.NewScanner(f)
-	for s.Scan() {
-		var i int
-		var x uint64
-		if _, err := fmt.Sscanf(s.Text(), "%x %x", &i, &x); err != nil {
-			return err
-		}
-		if i >= 0 && i < len(b) {
-			b[i] |= x
-		}
+	if len(buf) != 8*len(b) {
+		return fmt.Errorf("bitmap %s has %d bytes, want %d", path, len(buf), 8*len(b))
 	}
-	return s.Err()
+	for i := range b {
+		b[i] |= binary.LittleEndian.Uint64(buf[8*i:])
+	}
+	return nil
 }
 
 // SortedKeys returns the keys of a counter map in order.
